@@ -121,7 +121,7 @@ CLASSES = {"alu": ["C08", "C16", "C28"], "load": ["C08", "C09", "C16", "C28"], "
            "irq": ["C08", "C10", "C16", "C27", "C28"], "bad": ["C08", "C09", "C16", "C28", "C12"]}
 for c, props in CLASSES.items():
     for mode in ("virtual", "real"):
-        K(f"K.sim.step_{c}_{mode}", "sim.rs", f"step_{c}_{mode}", sorted(set(props + (["C12"] if mode == "real" and c != "irq" else []))), STEP_FNS, args=UF, timeout=1500, stubs=L2STUBS, assumptions=L2ASSUME, group=f"step{c}", replay="native")
+        K(f"K.sim.step_{c}_{mode}", "sim.rs", f"step_{c}_{mode}", sorted(set(props + (["C12"] if mode == "real" and c != "irq" else []) + (["C10"] if mode == "real" and c in ("trap", "bad") else []))), STEP_FNS, args=UF, timeout=1500, stubs=L2STUBS, assumptions=L2ASSUME, group=f"step{c}", replay="native")
 K("K.sim.psr_leaf", "sim.rs", "psr_leaf", ["C08"], ["PSR::new/get/set/privileged/priority/cc/is_n/is_z/is_p/set_privileged/set_priority/set_cc/set_cc_n/set_cc_z/set_cc_p"], group="simleaf", args=UF, replay="native")
 K("K.sim.sim_leaf", "sim.rs", "sim_leaf", ["C08", "C09", "C16", "C28"], ["Simulator::default_mem_ctx", "MemAccessCtx::omnipotent", "Simulator::set_cc", "Simulator::prefetch_pc"], group="simleaf", args=UF, stubs=[RS])
 K("K.sim.in_alloca", "sim.rs", "in_alloca_contract", ["C14", "C16"], ["Simulator::in_alloca"], kind="bounded", bound="<= 2 loaded blocks (sorted, disjoint)", group="simleaf", args=UF, stubs=[RS])
@@ -230,7 +230,7 @@ for h, b, kind in (("write_fill", "", "complete"), ("write_nothing_orig", "", "c
              ("block_range", "block of 3 words", "bounded"), ("write_fill_defined_label", "one-label table, one-letter name, concrete spellings", "bounded")):
     lab = "label" in h
     K(f"K.objblock.{h}", "asm__objblock.rs", h, ["C01"] + (["C02", "C26"] if "undefined" in h else []), ["ObjBlock::write_directive", "ObjBlock::push", "ObjBlock::shift", "<ObjBlock as Extend<u16>>::extend", "ObjBlock::range", "Directive::word_len"] + (["SymbolTable::lookup_label"] if lab else []),
-      kind=kind, bound=b or None, stubs=[RS] + ([] if lab or h == "block_range" else [UPPER]), assumptions=[OBJB], group="objblock", timeout=1500, tier="quick")
+      kind=kind, bound=b or None, stubs=[RS] + ([] if lab or h == "block_range" else [UPPER]), assumptions=[OBJB], group="objblock", timeout=1500, tier="quick", replay="native")
 EXTR = "add_label is nested inside SymbolTable::new: its text is copied verbatim from /repo on every run into a generated module (only `pub(crate)` prepended); the call sites in the statement loop are not covered"
 K("K.asm.add_label_vacant", "asm.rs", "add_label_vacant", ["C02", "C23"], ["add_label (nested in SymbolTable::new)"], kind="bounded", bound="empty table; name 'Ab'; address, span start, external flag symbolic", stubs=[RS], assumptions=[EXTR], timeout=1800)
 for k in (1, 2, 3, 4):
